@@ -5,10 +5,15 @@ PROP = {
     "theorems": [
         "Mps.C07.refused_noop", "Mps.C07.duplicate_noop", "Mps.C07.stale_refused", "Mps.C07.foreign_refused",
         "Mps.C07.after_end_noop", "Mps.C07.early_message_is_only_queued",
+        "Mps.C07.order_independent", "Mps.C07.order_independent_queues", "Mps.C07.sim_congruence",
+        "Mps.C07.redelivery_irrelevant", "Mps.C07.schedule_gives_reference_outcome",
+        "Mps.C07.honest_delivery_never_blames",
+        "Mps.C07.Ex.honest", "Mps.C07.Ex.sched_sub", "Mps.C07.Ex.sched_all", "Mps.C07.Ex.sched_ne",
+        "Mps.C07.Ex.still_running",
     ],
     "generated": [],
     "suites": [{"name": "handler", "quick": 500, "thorough": 15000}, {"name": "twoparty", "quick": 200, "thorough": 5000}],
     "propfields": {"handler": ["ok", "term", "closed", "can"], "twoparty": ["term", "closed", "can"]},
-    "level_text": "Proof (partial): stale, duplicated, foreign and post-completion messages provably change nothing (whole-state equality, all scripts, all states); a message for a later round is only queued. The headline claim (any schedule delivering every honest message at least once gives the in-order result) is checked against the model: the real handler's result under generated schedules (any order, duplicates, replays, early arrival, p2p before broadcast) is compared with the model's IN-ORDER run, and the model itself follows the real handler step by step on the same schedule.",
-    "level_note": "PARTIAL: order_independent is not yet a kernel-checked theorem (statement kept in MpsProps/C07.lean); map-iteration order in the replay of queued messages is modelled as id order (sound for one deviating party).",
+    "level_text": "Proof: order_independent is a kernel-checked theorem about the handler model (the Lean transcription of protocol.MultiHandler that the suite `handler` ties to the Go code step by step): for EVERY hash H, EVERY script sc and EVERY finite message set M with Honest H sc M (decidable: party ids distinct, first round number 1, round numbers increasing; every message addressed to this party in this session by a known other party, round in 2..final, of the kind its round expects, decodable with no failure flags, carrying the session's echo hash expBh of the preceding round - a closed form computed from M and this party's own broadcast; no two different messages for one (round, sender, kind)), ANY two delivery sequences l1, l2 over M with the same SET of delivered messages - any order, any repetitions, later rounds arbitrarily early, p2p before broadcast, not necessarily all of M - end in states that agree in err, result, cur, acc, out (all emitted messages, in order), closes, idx, reached, echo-hash table and accused, i.e. in every field except the two internal queues; while the session is running the queues hold the same entries too (order_independent_queues) and such states stay equivalent under every further call (sim_congruence). Corollaries: redelivery_irrelevant, schedule_gives_reference_outcome (any permutation-with-repetition of the in-order schedule gives the in-order outcome). honest_delivery_never_blames: the common outcome is never msgFail / echoMismatch / protoAbort / peerAbort, and every echo hash the handler computes equals expBh (so the echo hypothesis of Honest is the handler's own value, not an extra assumption about it). Non-vacuity: a concrete 3-party, 4-round session (broadcast, broadcast+p2p, p2p rounds) with Honest decided by the kernel, a reversed schedule with repetitions, and its completed run (result, err = none, echo table) evaluated by the kernel. For arbitrary (also dishonest) messages: stale, duplicated, foreign and post-completion messages provably change nothing (whole-state equality) and a message for a later round is only queued. The real handler is compared with the model on generated schedules (any order, duplicates, replays, early arrival, p2p before broadcast).",
+    "level_note": "The theorem is about one party's handler fed with honest peers' messages (the multi-party composition - that the peers' messages form an Honest set - is what the session suites check, not a Lean theorem); map-iteration order in the replay of queued messages is modelled as id order (for honest sets the theorem shows the replay outcome is a commutative sum, so the order cannot matter); script side conditions (distinct ids, rounds numbered increasingly from 1) are those of every protocol in the library.",
 }
